@@ -100,6 +100,7 @@ class ReconnectLogic(zeroconf.RecordUpdateListener):
         self._tries = 0
         # Event for tracking when logic should stop
         self._connect_task: asyncio.Task[None] | None = None
+        self._cancelled_connect_task: asyncio.Task[None] | None = None
         self._connect_timer: asyncio.TimerHandle | None = None
         self._stop_task: asyncio.Task[None] | None = None
 
@@ -278,6 +279,7 @@ class ReconnectLogic(zeroconf.RecordUpdateListener):
         """Cancel the connect task."""
         if self._connect_task:
             self._connect_task.cancel(msg)
+            self._cancelled_connect_task = self._connect_task
             self._connect_task = None
 
     def _cancel_connect(self, msg: str) -> None:
@@ -299,6 +301,15 @@ class ReconnectLogic(zeroconf.RecordUpdateListener):
             ):
                 return
             if await self._try_connect():
+                return
+            if asyncio.current_task() is self._cancelled_connect_task:
+                # This attempt failed because it was cancelled, either to be
+                # replaced by a newer attempt (mDNS record, unexpected
+                # disconnect) or by stop(). Whoever cancelled it decides what
+                # happens next: arming a retry timer or the mDNS listener
+                # here would leave a stale timer behind that can later start
+                # an attempt at the wrong time (ie. skip the expected
+                # disconnect cooldown).
                 return
             tries = min(self._tries, 10)  # prevent OverflowError
             wait_time = int(round(min(1.8**tries, 60.0)))
